@@ -21,6 +21,8 @@ pub struct Cfg {
     pub bypass_crc: bool, // informational: the harness binary is built with or without --cfg fuzzing
     pub touch: bool,
     pub script: Vec<(usize, Vec<ScriptOp>)>,
+    /// construct script (`c<pid>:ops`): changes queued from inside `construct(ByPid(pid))`
+    pub cscript: Vec<(u16, Vec<ScriptOp>)>,
 }
 
 pub fn parse_cfg(s: &str) -> Option<Cfg> {
@@ -29,10 +31,10 @@ pub fn parse_cfg(s: &str) -> Option<Cfg> {
     if hd.len() != 4 || hd[0] != b'b' || hd[2] != b't' {
         return None;
     }
-    let mut cfg = Cfg { bypass_crc: hd[1] == b'1', touch: hd[3] == b'1', script: vec![] };
+    let mut cfg = Cfg { bypass_crc: hd[1] == b'1', touch: hd[3] == b'1', script: vec![], cscript: vec![] };
     for e in parts {
         let mut kv = e.split(':');
-        let k = kv.next()?.parse::<usize>().ok()?;
+        let key = kv.next()?;
         let ops = kv.next()?;
         let mut v = vec![];
         for o in ops.split(',') {
@@ -46,7 +48,11 @@ pub fn parse_cfg(s: &str) -> Option<Cfg> {
                 }
             }
         }
-        cfg.script.push((k, v));
+        if let Some(r) = key.strip_prefix('c') {
+            cfg.cscript.push((r.parse::<u16>().ok()?, v));
+        } else {
+            cfg.script.push((key.parse::<usize>().ok()?, v));
+        }
     }
     Some(cfg)
 }
@@ -172,6 +178,24 @@ impl DemuxContext for HCtx {
         match req {
             FilterRequest::ByPid(pid) => {
                 self.trace.push(format!("C:bypid:{}>{}", u16::from(pid), tag));
+                // construct script: queue changes from inside `construct`
+                let ops: Option<Vec<ScriptOp>> =
+                    self.cfg.cscript.iter().find(|(p, _)| *p == u16::from(pid)).map(|(_, v)| v.clone());
+                if let Some(ops) = ops {
+                    for op in ops {
+                        match op {
+                            ScriptOp::Ins(p) => {
+                                let tag = self.tag();
+                                self.trace.push(format!("S:ins:{}>{}", p, tag));
+                                self.changeset.insert(Pid::new(p), HFilter::Rec(Recorder { tag }));
+                            }
+                            ScriptOp::Rem(p) => {
+                                self.trace.push(format!("S:rem:{}", p));
+                                self.changeset.remove(Pid::new(p));
+                            }
+                        }
+                    }
+                }
                 if pid == psi::pat::PAT_PID {
                     HFilter::Pat(PatPacketFilter::default())
                 } else {
